@@ -126,7 +126,8 @@ class PartialBind(Generic[C_co]):
     def __rshift__(self, other: "Pool") -> "C_co": ...
 
     def __rshift__(self, other: "Union[Pool, Partial[Owner]]"):  # noqa: F811
-        if isinstance(other, _pool.Pool):
+        # anything that is not an unbound template is the target, as for Partial >> target
+        if not isinstance(other, (Partial, PartialBind)):
             pool = self.targets[-1] >> other
             for owner in reversed(self.targets[:-1]):
                 pool = owner >> pool
